@@ -188,7 +188,7 @@ func reportAccessorPanics(r *Run, input string, res accResult) {
 }
 
 // ---------------------------------------------------------------- frames
-func frameOf(id uint32, status uint32, seq int32, body []byte) []byte {
+func rawFrameOf(id uint32, status uint32, seq int32, body []byte) []byte {
 	f := make([]byte, 16, 16+len(body))
 	binary.BigEndian.PutUint32(f[0:], uint32(16+len(body)))
 	binary.BigEndian.PutUint32(f[4:], id)
@@ -630,7 +630,7 @@ func corrC11(r *Run) {
 				status = uint32(r.Rng.Pick([]int{1, 8, 0xFF, 0x400}))
 			}
 			seq := int32(r.Rng.Pick([]int{0, 1, -1, 0x7FFFFFFF, -0x80000000, r.Rng.Intn(1000)}))
-			c11Frame(r, frameOf(t.ID, status, seq, body), "stream/"+t.Name, i%4 == 0, &delivered)
+			c11Frame(r, rawFrameOf(t.ID, status, seq, body), "stream/"+t.Name, i%4 == 0, &delivered)
 		}
 	}
 	flush("combiner on decoded deliver_sm (stream)")
